@@ -70,6 +70,9 @@ def gen(rng, tier):
     # server ends THAT namespace while messages (and their acknowledgements)
     # are in flight on the others - which must not notice
     cfg['spare_drop'] = rng.random() < 0.25
+    # the client's connect handler uses the namespace at once: it emits with
+    # a callback, and the server's answer must reach that callback
+    cfg['connect_emits'] = rng.random() < 0.3
     if rng.random() < 0.3:
         # a second sender at wire level: consecutive events in ONE polling
         # payload (handled by the server back to back)
@@ -129,8 +132,17 @@ def _run(case, cfg, w):
     counters = {'s': 0, 'c': 0}
     order = {'s': [], 'c': []}    # receiver side: indices in invocation order
 
+    hello_cb = {}
+
     def make_plan(who):
         def plan(label, args, ev):
+            if who == 'c' and label[3] == 'connect' and \
+                    cfg.get('connect_emits'):
+                ns = label[2]
+                return [('do', lambda: c.emit(
+                    'hello-c', {'ns': ns, 'b': b'\x00hi'}, namespace=ns,
+                    callback=lambda *a: hello_cb.setdefault(ns, []).append(
+                        list(a)))), ('ret', None)]
             if label[3] in ('connect', 'disconnect'):
                 return [('ret', None)]
             # the i-th ordinary invocation at this receiver answers with the
@@ -169,11 +181,26 @@ def _run(case, cfg, w):
                 target.register_namespace(w.make_namespace(
                     ns, events + ['connect', 'disconnect'], plan, server=who,
                     coroutine=coroutine, base=base))
+    if cfg.get('connect_emits'):
+        for ns in cfg['nss']:
+            srv.on('hello-c', lambda sid, data: ('welcome', data),
+                   namespace=ns)
     h = w.call(c.connect, 'http://s', transports=['websocket'],
                namespaces=all_nss, wait_timeout=5)
     w.settle()
     if h.exc is not None or not c.connected:
         return {'harness': 'connect failed: %r' % (h.exc,)}
+    if cfg.get('connect_emits'):
+        w.advance(0.1)
+        for ns in cfg['nss']:
+            want = [['welcome', {'ns': ns, 'b': b'\x00hi'}]]
+            got = hello_cb.get(ns, [])
+            if not typed_eq(got, want):
+                v.add('callback_from_connect_handler', 'the connect handler '
+                      'of %s emitted with a callback; the server answered '
+                      '%s, the callback received %s'
+                      % (ns, trepr(want[0]), trepr(got)),
+                      'none' if not got else 'other')
     sids = dict(c.namespaces)
     results = {'c2s': [], 's2c': []}
     nontrivial = False
